@@ -1,8 +1,422 @@
 (** Proofs about coq/model/Api.v (C20). *)
-From Coq Require Import ZArith QArith Qabs List Bool String Lia.
-From Verif Require Import Base Cal Period PeriodStr Param Engine Api.
+From Coq Require Import ZArith QArith Qabs List Bool String Lia Arith.
+From Verif Require Import Base Cal Period PeriodStr Param Engine EngineProofs Api ApiSpec.
 Import ListNotations.
 Open Scope string_scope.
+Local Notation length := List.length.
+
+(** * Paths and documents *)
+
+Lemma path_eqb_eq : forall a b, path_eqb a b = true <-> a = b.
+Proof.
+  intros [[[a1 a2] a3] a4] [[[b1 b2] b3] b4]. cbn [path_eqb].
+  rewrite !andb_true_iff, !String.eqb_eq. split.
+  - intros [[[-> ->] ->] ->]. reflexivity.
+  - intros H. inversion H. auto.
+Qed.
+
+Lemma path_eqb_refl : forall a, path_eqb a a = true.
+Proof. intros a. now apply path_eqb_eq. Qed.
+
+Lemma dlookup_some : forall p d l, dlookup p d = Some l -> In (p, l) d.
+Proof.
+  intros p d l. unfold dlookup. destruct (find _ d) as [[q l']|] eqn:F; [|discriminate].
+  cbn. intros [= ->]. apply find_some in F as [Hin He]. cbn in He.
+  apply path_eqb_eq in He. subst q. exact Hin.
+Qed.
+
+Lemma dlookup_none : forall p d, dlookup p d = None -> ~ In p (map fst d).
+Proof.
+  intros p d. unfold dlookup. destruct (find _ d) as [e|] eqn:F; [discriminate|].
+  intros _ Hin. apply in_map_iff in Hin as [e [<- He]].
+  apply (find_none _ _ F) in He. rewrite path_eqb_refl in He. discriminate.
+Qed.
+
+Lemma dlookup_in : forall p d, In p (map fst d) -> exists l, dlookup p d = Some l.
+Proof.
+  intros p d Hin. destruct (dlookup p d) as [l|] eqn:E; [eauto|].
+  exfalso. eapply dlookup_none; eauto.
+Qed.
+
+Lemma dmem_in : forall p d, In p (map fst d) -> dmem p d = true.
+Proof.
+  intros p d Hin. unfold dmem. apply existsb_exists.
+  apply in_map_iff in Hin as [e [<- He]]. exists e. split; [exact He|apply path_eqb_refl].
+Qed.
+
+Lemma nodup_fst_inj : forall (d : doc) e e', NoDup (map fst d) -> In e d -> In e' d -> fst e = fst e' -> e = e'.
+Proof.
+  induction d as [|a d IH]; intros e e' Hnd He He' Hf; [contradiction|].
+  cbn in Hnd. inversion Hnd as [|x l Hnot Hnd']; subst.
+  destruct He as [->|He], He' as [->|He']; auto.
+  - exfalso. apply Hnot. rewrite Hf. now apply in_map.
+  - exfalso. apply Hnot. rewrite <- Hf. now apply in_map.
+Qed.
+
+Lemma Forall2_map_self : forall {A B} (R : A -> B -> Prop) (f : A -> B) l,
+  (forall a, In a l -> R a (f a)) -> Forall2 R l (map f l).
+Proof.
+  induction l as [|a l IH]; intros H; cbn; constructor.
+  - apply H. now left.
+  - apply IH. intros b Hb. apply H. now right.
+Qed.
+
+(** * The handler over a table *)
+
+Section Table.
+  Variable var_info : string -> option (jtype * string).
+  Variable ids_of : string -> option (list string).
+  Variable is_role : string -> string -> bool.
+  Variable period_ok : string -> bool.
+  Variable value_of : string -> string -> res (list raw).
+
+  Local Notation fills := (fills var_info ids_of value_of).
+
+  Local Notation slot := (slot_leaf var_info ids_of (table_calc value_of)).
+  Local Notation comp := (compute var_info ids_of (table_calc value_of)).
+
+  Lemma slot_table : forall pa l, snd (slot tt pa) = Ok l -> fills pa l.
+  Proof.
+    intros [[[pl id] v] pk] l. unfold slot_leaf, table_calc, ApiSpec.fills.
+    destruct (var_info v) as [[ty vpl]|]; [|discriminate]. cbn.
+    destruct (value_of v pk) as [arr|]; [|discriminate].
+    destruct (ids_of pl) as [ids|]; [|discriminate].
+    destruct (index_of id ids) as [i|] eqn:I; [|discriminate].
+    destruct (nth_error arr i) as [x|] eqn:N; [|discriminate].
+    cbn. intros [= <-]. exists ty, vpl, arr, ids, i, x. repeat split; auto.
+  Qed.
+
+  Lemma compute_table : forall ps r, snd (comp tt ps) = Ok r ->
+    map fst r = ps /\ Forall (fun e => fills (fst e) (snd e)) r.
+  Proof.
+    induction ps as [|pa ps IH]; intros r; cbn [compute].
+    - intros [= <-]. split; constructor.
+    - destruct (slot tt pa) as [s1 x] eqn:E1. destruct x as [l|e]; [|discriminate].
+      destruct s1. destruct (comp tt ps) as [s2 y] eqn:E2. destruct y as [r'|e]; [|discriminate].
+      cbn. intros [= <-]. destruct (IH r' eq_refl) as [I1 I2]. split.
+      + cbn. now rewrite I1.
+      + constructor; [|exact I2]. cbn. apply slot_table. now rewrite E1.
+  Qed.
+
+  Lemma null_paths_in : forall d p, In p (null_paths d) <-> exists e, In e d /\ fst e = p /\ snd e = Null.
+  Proof.
+    intros d p. unfold null_paths. rewrite in_map_iff. split.
+    - intros [e [<- He]]. apply filter_In in He as [He Hn]. exists e. repeat split; auto.
+      destruct (snd e); try discriminate. reflexivity.
+    - intros [e [He [<- Hn]]]. exists e. split; [reflexivity|]. apply filter_In. split; [exact He|].
+      now rewrite Hn.
+  Qed.
+
+  Lemma merge_within : forall d r, (forall p, In p (map fst r) -> In p (map fst d)) ->
+    merge d r = map (fun e => match dlookup (fst e) r with Some l => (fst e, l) | None => e end) d.
+  Proof.
+    intros d r H. unfold merge.
+    assert (F : filter (fun x => negb (dmem (fst x) d)) r = []).
+    { clear - H. induction r as [|a r IH]; [reflexivity|]. cbn.
+      rewrite dmem_in; [|apply H; now left]. cbn. apply IH. intros p Hp. apply H. now right. }
+    rewrite F. apply app_nil_r.
+  Qed.
+
+  (** ** calculate_fills_exactly *)
+  Theorem calculate_fills : forall d out, NoDup (map fst d) ->
+    api_calculate var_info ids_of is_role period_ok table_build (table_calc value_of) d = Done out ->
+    Forall2 (fun e o => fst o = fst e
+                        /\ (snd e <> Null -> snd o = snd e)
+                        /\ (snd e = Null -> fills (fst e) (snd o))) d out.
+  Proof.
+    intros d out Hnd. unfold api_calculate, table_build.
+    destruct (check_doc _ _ _ _ d); [|discriminate].
+    destruct (snd (comp tt (null_paths d))) as [r|e] eqn:C; [|destruct e; discriminate].
+    intros [= <-]. destruct (compute_table _ _ C) as [R1 R2].
+    rewrite merge_within.
+    2:{ intros p Hp. rewrite R1 in Hp. apply null_paths_in in Hp as [e [He [<- _]]]. now apply in_map. }
+    apply Forall2_map_self. intros e He.
+    destruct (dlookup (fst e) r) as [l|] eqn:L.
+    - apply dlookup_some in L. cbn [fst snd]. split; [reflexivity|].
+      assert (Hn : snd e = Null).
+      { assert (Hp : In (fst e) (null_paths d)) by (rewrite <- R1; apply (in_map fst) in L; exact L).
+        apply null_paths_in in Hp as [e' [He' [Hf Hs]]].
+        rewrite (nodup_fst_inj d e e' Hnd He He' (eq_sym Hf)). exact Hs. }
+      split; [intros Hx; contradiction|]. intros _.
+      rewrite Forall_forall in R2. exact (R2 _ L).
+    - split; [reflexivity|]. split; [reflexivity|]. intros Hn. exfalso.
+      apply dlookup_none in L. apply L. rewrite R1. apply null_paths_in. exists e. auto.
+  Qed.
+End Table.
+
+(** * A stateful engine that answers like a table *)
+
+Section Simulation.
+  Context {St : Type}.
+  Variable var_info : string -> option (jtype * string).
+  Variable ids_of : string -> option (list string).
+  Variable is_role : string -> string -> bool.
+  Variable period_ok : string -> bool.
+  Variable build : doc -> res St.
+  Variable ecalc : St -> string -> string -> St * res (list raw).
+  Variable plurals : list string.
+  Variable canon : string -> string.
+  Variable value_of : string -> string -> res (list raw).
+  Variable Inv : St -> Prop.
+  Hypothesis ecalc_sound : forall s v pk, Inv s ->
+    Inv (fst (ecalc s v pk)) /\ snd (ecalc s v pk) = value_of v pk.
+
+  Lemma slot_sim : forall s pa, Inv s ->
+    Inv (fst (slot_leaf var_info ids_of ecalc s pa))
+    /\ snd (slot_leaf var_info ids_of ecalc s pa) = snd (slot_leaf var_info ids_of (table_calc value_of) tt pa).
+  Proof.
+    intros s [[[pl id] v] pk] HI. unfold slot_leaf, table_calc.
+    destruct (var_info v) as [[ty vpl]|]; [|split; [exact HI|reflexivity]].
+    destruct (ecalc_sound s v pk HI) as [H1 H2]. destruct (ecalc s v pk) as [s1 r]. cbn in H1, H2. subst r.
+    destruct (value_of v pk) as [arr|e]; [|split; [exact H1|reflexivity]].
+    destruct (ids_of pl) as [ids|]; [|split; [exact H1|reflexivity]].
+    destruct (index_of id ids) as [i|]; [|split; [exact H1|reflexivity]].
+    destruct (nth_error arr i); split; try exact H1; reflexivity.
+  Qed.
+
+  Lemma compute_sim : forall ps s, Inv s ->
+    Inv (fst (compute var_info ids_of ecalc s ps))
+    /\ snd (compute var_info ids_of ecalc s ps) = snd (compute var_info ids_of (table_calc value_of) tt ps).
+  Proof.
+    induction ps as [|pa ps IH]; intros s HI; cbn [compute]; [split; [exact HI|reflexivity]|].
+    destruct (slot_sim s pa HI) as [H1 H2].
+    destruct (slot_leaf var_info ids_of ecalc s pa) as [s1 x].
+    destruct (slot_leaf var_info ids_of (table_calc value_of) tt pa) as [u y]. cbn in H1, H2. subst y.
+    destruct x as [l|e]; [|split; [exact H1|reflexivity]]. destruct u.
+    destruct (IH s1 H1) as [J1 J2].
+    destruct (compute var_info ids_of ecalc s1 ps) as [s2 z].
+    destruct (compute var_info ids_of (table_calc value_of) tt ps) as [u w]. cbn in J1, J2. subst w.
+    split; [exact J1|reflexivity].
+  Qed.
+
+  Lemma trace_values_sim : forall ps s, Inv s ->
+    Inv (fst (trace_values var_info ecalc canon s ps))
+    /\ snd (trace_values var_info ecalc canon s ps)
+       = snd (trace_values var_info (table_calc value_of) canon tt ps).
+  Proof.
+    induction ps as [|[[[pl id] v] pk] ps IH]; intros s HI; cbn [trace_values]; [split; [exact HI|reflexivity]|].
+    destruct (var_info v) as [[ty vpl]|]; [|split; [exact HI|reflexivity]].
+    unfold table_calc at 1.
+    destruct (ecalc_sound s v pk HI) as [H1 H2]. destruct (ecalc s v pk) as [s1 r]. cbn in H1, H2. subst r.
+    destruct (value_of v pk) as [arr|e]; [|split; [exact H1|reflexivity]].
+    destruct (IH s1 H1) as [J1 J2].
+    destruct (trace_values var_info ecalc canon s1 ps) as [s2 z].
+    destruct (trace_values var_info (table_calc value_of) canon tt ps) as [u w]. cbn in J1, J2. subst w.
+    split; [exact J1|reflexivity].
+  Qed.
+
+  (** A request served on a new simulation whose calculations all return the table's
+      values is answered as by the table. *)
+  Lemma api_calculate_sim : forall d s0, build d = Ok s0 -> Inv s0 ->
+    api_calculate var_info ids_of is_role period_ok build ecalc d
+    = api_calculate var_info ids_of is_role period_ok table_build (table_calc value_of) d.
+  Proof.
+    intros d s0 Hb HI. unfold api_calculate, table_build. rewrite Hb.
+    destruct (check_doc _ _ _ _ d); [|reflexivity].
+    now rewrite (proj2 (compute_sim (null_paths d) s0 HI)).
+  Qed.
+
+  Lemma api_trace_sim : forall d s0, build d = Ok s0 -> Inv s0 ->
+    api_trace var_info ids_of is_role period_ok build ecalc plurals canon d
+    = api_trace var_info ids_of is_role period_ok table_build (table_calc value_of) plurals canon d.
+  Proof.
+    intros d s0 Hb HI. unfold api_trace, table_build. rewrite Hb.
+    destruct (check_doc _ _ _ _ d); [|reflexivity].
+    now rewrite (proj2 (trace_values_sim (null_paths d) s0 HI)).
+  Qed.
+End Simulation.
+
+(** * /trace agrees with /calculate *)
+
+Section Trace.
+  Variable var_info : string -> option (jtype * string).
+  Variable ids_of : string -> option (list string).
+  Variable is_role : string -> string -> bool.
+  Variable period_ok : string -> bool.
+  Variable value_of : string -> string -> res (list raw).
+  Variable plurals : list string.
+  Variable canon : string -> string.
+
+  Lemma trace_values_table : forall ps t,
+    snd (trace_values var_info (table_calc value_of) canon tt ps) = Ok t ->
+    Forall2 (fun pa kv => let '(_, _, v, pk) := pa in
+               exists ty vpl arr, var_info v = Some (ty, vpl) /\ value_of v pk = Ok arr
+                                  /\ kv = (trace_key v (canon pk), map (render ty) arr)) ps t.
+  Proof.
+    induction ps as [|[[[pl id] v] pk] ps IH]; intros t; cbn [trace_values].
+    - intros [= <-]. constructor.
+    - destruct (var_info v) as [[ty vpl]|] eqn:V; [|discriminate]. unfold table_calc at 1.
+      destruct (value_of v pk) as [arr|] eqn:A; [|discriminate].
+      destruct (trace_values var_info (table_calc value_of) canon tt ps) as [u y]. destruct y as [t'|]; [|discriminate].
+      cbn. intros [= <-]. constructor; [|apply IH; reflexivity].
+      exists ty, vpl, arr. auto.
+  Qed.
+
+  (** For every requested slot, the value the trace reports for that calculation, at the
+      position of the instance, is the leaf /calculate puts into the slot. *)
+  Theorem trace_agrees : forall d out t, NoDup (map fst d) ->
+    api_calculate var_info ids_of is_role period_ok table_build (table_calc value_of) d = Done out ->
+    api_trace var_info ids_of is_role period_ok table_build (table_calc value_of) plurals canon d = Done t ->
+    requested t = map (fun pa => let '(_, _, v, pk) := pa in trace_key v pk) (null_paths d)
+    /\ described t = map (fun pl => (pl, match ids_of pl with Some ids => ids | None => [] end)) plurals
+    /\ Forall2 (fun pa kv => let '(pl, id, v, pk) := pa in
+                  fst kv = trace_key v (canon pk)
+                  /\ exists ids i l, ids_of pl = Some ids /\ index_of id ids = Some i
+                                     /\ In (pa, l) out /\ nth_error (snd kv) i = Some l)
+               (null_paths d) (traced t).
+  Proof.
+    intros d out t Hnd Hc Ht.
+    pose proof (calculate_fills var_info ids_of is_role period_ok value_of d out Hnd Hc) as HF.
+    unfold api_trace, table_build in Ht.
+    destruct (check_doc _ _ _ _ d); [|discriminate].
+    destruct (snd (trace_values var_info (table_calc value_of) canon tt (null_paths d))) as [tv|e] eqn:T;
+      [|destruct e; discriminate].
+    injection Ht as <-. cbn [requested described traced]. split; [reflexivity|]. split; [reflexivity|].
+    apply trace_values_table in T.
+    assert (Hslots : forall pa, In pa (null_paths d) -> exists l, In (pa, l) out /\ fills var_info ids_of value_of pa l).
+    { intros pa Hpa. apply null_paths_in in Hpa as [e [He [Hf Hn]]].
+      clear - HF He Hf Hn. induction HF as [|e0 o0 d' out' H0 HF IH]; [contradiction|].
+      destruct He as [->|He].
+      - destruct H0 as (F1 & _ & F3). exists (snd o0). split.
+        + left. rewrite <- Hf, <- F1. now destruct o0.
+        + rewrite <- Hf. now apply F3.
+      - destruct (IH He) as [l [I1 I2]]. exists l. split; [now right|exact I2]. }
+    revert Hslots T. generalize (null_paths d). intros ps0 Hs T. revert Hs.
+    induction T as [|pa kv ps tv H0 T IH]; intros Hs; constructor.
+    - destruct pa as [[[pl id] v] pk]. destruct H0 as (ty & vpl & arr & V & A & ->). cbn [fst snd].
+      split; [reflexivity|].
+      destruct (Hs (pl, id, v, pk) (or_introl eq_refl)) as [l [I1 I2]].
+      destruct I2 as (ty' & vpl' & arr' & ids & i & x & V' & A' & Hi & Hx & Hn & ->).
+      rewrite V in V'. injection V' as <- <-. rewrite A in A'. injection A' as <-.
+      exists ids, i, (render ty x). repeat split; auto. now apply map_nth_error.
+    - apply IH. intros pa' Hp. apply Hs. now right.
+  Qed.
+End Trace.
+
+(** * The machine of Engine.v behind the handlers *)
+
+Section EngBridge.
+  Variable sy : sys.
+  Variable pp : popu.
+  Variable names pids gids : list string.
+  Hypothesis Hranked : ranked sy = true.
+  Hypothesis Hloops : (1 <= max_loops sy)%nat.
+
+  Lemma eng_calc_sound : forall inp s v pk, Top sy pp inp s ->
+    Top sy pp inp (fst (eng_calc sy pp names s v pk))
+    /\ snd (eng_calc sy pp names s v pk) = eng_value_of sy pp names inp v pk.
+  Proof.
+    intros inp s v pk HT. unfold eng_calc, eng_value_of.
+    destruct (eng_var sy names v) as [[i x]|]; [|split; [exact HT|reflexivity]].
+    destruct (parse_period pk) as [p|e]; [|split; [exact HT|reflexivity]].
+    destruct (calculate_refines_meaning sy pp inp Hranked Hloops s i p HT) as [H1 H2].
+    destruct (calc (enough_fuel sy) sy pp s i p) as [s1 r]. cbn in H1, H2. subst r.
+    split; [exact H2|reflexivity].
+  Qed.
+
+  Lemma set_input_clean : forall s v p a, stack s = [] -> invalid s = [] ->
+    stack (fst (set_input sy pp s v p a)) = [] /\ invalid (fst (set_input sy pp s v p a)) = [].
+  Proof.
+    intros s v p a Hs Hi. unfold set_input.
+    destruct (nth_error (vars sy) v) as [x|]; [|auto].
+    repeat match goal with |- context [if ?c then _ else _] => destruct c end; cbn; auto.
+  Qed.
+
+  Lemma apply_inputs_clean : forall rs s s',
+    Forall (fun r => exists v p a, r = RSetInput v p a) rs ->
+    stack s = [] -> invalid s = [] -> apply_inputs sy pp s rs = Ok s' ->
+    stack s' = [] /\ invalid s' = [].
+  Proof.
+    induction rs as [|r rs IH]; intros s s' HF Hs Hi; cbn [apply_inputs].
+    - intros [= <-]. auto.
+    - inversion HF as [|r0 l (v & p & a & ->) HF']; subst. cbn [step].
+      destruct (set_input_clean s v p a Hs Hi) as [C1 C2].
+      destruct (set_input sy pp s v p a) as [s1 ans]. cbn in C1, C2.
+      destruct ans; try discriminate; eauto.
+  Qed.
+
+  Lemma input_requests_sets : forall d,
+    Forall (fun r => exists v p a, r = RSetInput v p a) (input_requests sy names pids gids d).
+  Proof.
+    intros d. unfold input_requests. apply Forall_forall. intros r Hr.
+    apply in_flat_map in Hr as [[[pl v] p] [_ Hr]].
+    destruct (eng_var sy names v) as [[i x]|]; [|contradiction].
+    destruct (eng_ids_of pids gids pl); [|contradiction].
+    destruct Hr as [<-|[]]. eauto.
+  Qed.
+
+  Lemma eng_build_top : forall d s0, eng_build sy pp names pids gids d = Ok s0 ->
+    s0 = init (cache s0) /\ Top sy pp (cache s0) s0.
+  Proof.
+    intros d s0 Hb. unfold eng_build in Hb.
+    destruct (apply_inputs_clean _ (init []) s0 (input_requests_sets d) eq_refl eq_refl Hb) as [C1 C2].
+    assert (E : s0 = init (cache s0)) by (destruct s0; cbn in *; subst; reflexivity).
+    split; [exact E|]. rewrite E at 2. apply Top_init.
+  Qed.
+
+  (** On a ranked rule system the handler running on the machine (one simulation, cache
+      shared by the slots of the request) answers as the table of meanings does. *)
+  Theorem api_calculate_eng_table : forall d s0, eng_build sy pp names pids gids d = Ok s0 ->
+    api_calculate_eng sy pp names pids gids d
+    = api_calculate (eng_var_info sy names) (eng_ids_of pids gids) eng_is_role eng_period_ok
+                    table_build (table_calc (eng_value_of sy pp names (cache s0))) d.
+  Proof.
+    intros d s0 Hb. unfold api_calculate_eng.
+    apply (api_calculate_sim _ _ _ _ _ _ _ (Top sy pp (cache s0))) with (s0 := s0).
+    - intros s v pk. apply eng_calc_sound.
+    - exact Hb.
+    - apply (eng_build_top d s0 Hb).
+  Qed.
+
+  Theorem api_trace_eng_table : forall d s0, eng_build sy pp names pids gids d = Ok s0 ->
+    api_trace_eng sy pp names pids gids d
+    = api_trace (eng_var_info sy names) (eng_ids_of pids gids) eng_is_role eng_period_ok
+                table_build (table_calc (eng_value_of sy pp names (cache s0))) [persons_pl; groups_pl] eng_canon d.
+  Proof.
+    intros d s0 Hb. unfold api_trace_eng.
+    apply (api_trace_sim _ _ _ _ _ _ _ _ _ (Top sy pp (cache s0))) with (s0 := s0).
+    - intros s v pk. apply eng_calc_sound.
+    - exact Hb.
+    - apply (eng_build_top d s0 Hb).
+  Qed.
+
+  Lemma machine_as_meaning : forall d s0, eng_build sy pp names pids gids d = Ok s0 ->
+    api_calculate_eng sy pp names pids gids d
+    = api_calculate (eng_var_info sy names) (eng_ids_of pids gids) eng_is_role eng_period_ok
+                    table_build (table_calc (eng_value_of sy pp names (cache s0))) d
+    /\ api_trace_eng sy pp names pids gids d
+       = api_trace (eng_var_info sy names) (eng_ids_of pids gids) eng_is_role eng_period_ok
+                   table_build (table_calc (eng_value_of sy pp names (cache s0)))
+                   [persons_pl; groups_pl] eng_canon d.
+  Proof. intros d s0 Hb. split; [now apply api_calculate_eng_table|now apply api_trace_eng_table]. Qed.
+
+  Lemma api_calculate_eng_done : forall d out, api_calculate_eng sy pp names pids gids d = Done out ->
+    exists s0, eng_build sy pp names pids gids d = Ok s0.
+  Proof.
+    intros d out. unfold api_calculate_eng, api_calculate.
+    destruct (check_doc _ _ _ _ d); [|discriminate].
+    destruct (eng_build sy pp names pids gids d) as [s0|e]; [eauto|destruct e; discriminate].
+  Qed.
+
+  (** calculate_fills_exactly for the engine: the slots hold the MEANING of the rule system *)
+  Theorem calculate_eng_fills : forall d out, NoDup (map fst d) ->
+    api_calculate_eng sy pp names pids gids d = Done out ->
+    exists inp, eng_build sy pp names pids gids d = Ok (init inp) /\
+      Forall2 (fun e o => fst o = fst e
+                          /\ (snd e <> Null -> snd o = snd e)
+                          /\ (snd e = Null ->
+                              fills (eng_var_info sy names) (eng_ids_of pids gids)
+                                    (eng_value_of sy pp names inp) (fst e) (snd o))) d out.
+  Proof.
+    intros d out Hnd Hc. destruct (api_calculate_eng_done d out Hc) as [s0 Hb].
+    exists (cache s0). split.
+    - rewrite Hb. f_equal. apply (eng_build_top d s0 Hb).
+    - rewrite (api_calculate_eng_table d s0 Hb) in Hc.
+      exact (calculate_fills _ _ _ _ _ d out Hnd Hc).
+  Qed.
+End EngBridge.
+
+(** * One application instance, many requests *)
 
 Section Server.
   Context {St : Type}.
@@ -30,3 +444,517 @@ Section Server.
     rewrite Nat.sub_diag. reflexivity.
   Qed.
 End Server.
+
+
+
+(** * YAML verdicts *)
+
+Lemma all_some_iff : forall {A B} (f : A -> option B) l l',
+  all_some (map f l) = Some l' <-> Forall2 (fun x y => f x = Some y) l l'.
+Proof.
+  intros A B f. induction l as [|a l IH]; intros l'; cbn.
+  - split; [intros [= <-]; constructor|intros H; inversion H; reflexivity].
+  - destruct (f a) as [b|] eqn:Fa.
+    + destruct (all_some (map f l)) as [t|] eqn:E.
+      * split.
+        -- intros [= <-]. constructor; [exact Fa|]. now apply IH.
+        -- intros H. inversion H as [|? y ? l2 H1 H2]; subst. rewrite Fa in H1. injection H1 as <-.
+           apply IH in H2. injection H2 as <-. reflexivity.
+      * split; [discriminate|]. intros H. inversion H as [|? y ? l2 H1 H2]; subst.
+        apply IH in H2. discriminate.
+    + split; [discriminate|]. intros H. inversion H as [|? y ? l2 H1 H2]; subst. rewrite Fa in H1. discriminate.
+Qed.
+
+Lemma Forall2_fun : forall {A B} (f : A -> option B) l l1 l2,
+  Forall2 (fun x y => f x = Some y) l l1 -> Forall2 (fun x y => f x = Some y) l l2 -> l1 = l2.
+Proof.
+  intros A B f l l1 l2 H1 H2. apply all_some_iff in H1. apply all_some_iff in H2. congruence.
+Qed.
+
+Lemma near_iff : forall am rm v t,
+  near am rm (v, t) = true <->
+  (forall a, am = Some a -> (Qabs (t - v) <= a)%Q) /\ (forall r, rm = Some r -> (Qabs (t - v) <= Qabs (r * t))%Q).
+Proof.
+  intros am rm v t. unfold near. rewrite andb_true_iff. split.
+  - intros [H1 H2]. split.
+    + intros a ->. now apply Qle_bool_iff.
+    + intros r ->. now apply Qle_bool_iff.
+  - intros [H1 H2]. split.
+    + destruct am as [a|]; [|reflexivity]. apply Qle_bool_iff. now apply H1.
+    + destruct rm as [r|]; [|reflexivity]. apply Qle_bool_iff. now apply H2.
+Qed.
+
+Lemma closeb_iff : forall am rm p, closeb am rm p = true <-> close am rm p.
+Proof.
+  intros am rm [[v|a] [t|b]]; cbn [closeb close].
+  - apply near_iff.
+  - split; [discriminate|contradiction].
+  - split; [discriminate|contradiction].
+  - apply String.eqb_eq.
+Qed.
+
+Lemma date_margin_iff : forall ty am,
+  date_margin_ok ty am = true <-> (ty = JDate -> forall a, am = Some a -> (0 <= a)%Q).
+Proof.
+  intros ty am. unfold date_margin_ok. destruct ty; try (split; [intros _ H; discriminate|reflexivity]).
+  destruct am as [a|].
+  - rewrite Qle_bool_iff. split; [intros H _ a' [= <-]; exact H|intros H; now apply H].
+  - split; [intros _ _ a H; discriminate|reflexivity].
+Qed.
+
+Lemma assert_near_iff : forall ty value target am rm,
+  assert_near ty value target am rm = Ok true <->
+  exists vs ts pairs,
+    Forall2 (fun r c => raw_cmp ty r = Some c) value vs
+    /\ Forall2 (fun l c => leaf_cmp ty l = Some c) target ts
+    /\ bcast vs ts = Ok pairs
+    /\ Forall (close (effective_abs am rm) rm) pairs
+    /\ (ty = JDate -> forall a, effective_abs am rm = Some a -> (0 <= a)%Q).
+Proof.
+  intros ty value target am rm. unfold assert_near. split.
+  - destruct (all_some (map (raw_cmp ty) value)) as [vs|] eqn:V; [|discriminate].
+    destruct (all_some (map (leaf_cmp ty) target)) as [ts|] eqn:T; [|discriminate].
+    destruct (bcast vs ts) as [pairs|] eqn:B; [|discriminate].
+    intros [= H]. apply andb_true_iff in H as [H1 H2].
+    exists vs, ts, pairs. split; [|split; [|split; [exact B|split]]].
+    + now apply all_some_iff.
+    + now apply all_some_iff.
+    + apply Forall_forall. intros p Hp. apply closeb_iff. rewrite forallb_forall in H1. now apply H1.
+    + now apply date_margin_iff.
+  - intros (vs & ts & pairs & V & T & B & C & D).
+    apply all_some_iff in V. apply all_some_iff in T. rewrite V, T, B. f_equal.
+    apply andb_true_iff. split.
+    + apply forallb_forall. intros p Hp. apply closeb_iff. rewrite Forall_forall in C. now apply C.
+    + now apply date_margin_iff.
+Qed.
+
+Lemma all_pass_iff : forall {A} (f : A -> res bool) l,
+  all_pass f l = Ok true <-> Forall (fun a => f a = Ok true) l.
+Proof.
+  intros A f. induction l as [|a l IH]; cbn [all_pass].
+  - split; [constructor|reflexivity].
+  - split.
+    + intros H. destruct (f a) as [[|]|e] eqn:Fa; try discriminate. constructor; [exact Fa|now apply IH].
+    + intros H. inversion H as [|? ? H1 H2]; subst. rewrite H1. now apply IH.
+Qed.
+
+(** induction on [ytree] through the lists of its mappings *)
+Lemma ytree_ind' : forall P : ytree -> Prop,
+  (forall l, P (YL l)) -> (forall ls, P (YS ls)) ->
+  (forall kv, Forall (fun e => P (snd e)) kv -> P (YD kv)) -> forall x, P x.
+Proof.
+  intros P H1 H2 H3. fix IH 1. intros [l|ls|kv]; [apply H1|apply H2|].
+  apply H3. induction kv as [|[k x] kv IHkv]; constructor; [apply IH|exact IHkv].
+Qed.
+
+Section YamlProofs.
+  Variable var_type : string -> option jtype.
+  Variable is_singular : string -> bool.
+  Variable ids_of : string -> option (list string).
+  Variable value_of : string -> string -> res (list raw).
+  Variable tst : ytest.
+
+  Local Notation holds := (holds var_type value_of tst).
+  Local Notation check_target := (check_target var_type value_of tst).
+  Local Notation check_variable := (check_variable var_type value_of tst).
+
+  Lemma check_target_iff : forall name target period idx,
+    check_target name target period idx = Ok true <-> holds (mk_exp name period idx target).
+  Proof.
+    intros name target period idx. unfold Api.check_target, ApiSpec.holds. cbn [x_var x_period x_idx x_target]. split.
+    - destruct (var_type name) as [ty|] eqn:E1; [|discriminate].
+      destruct period as [pk|]; [|discriminate].
+      destruct (value_of name pk) as [arr|] eqn:E3; [|discriminate].
+      destruct (margin_for (t_abs tst) name) as [am|] eqn:E4; [|discriminate].
+      destruct (margin_for (t_rel tst) name) as [rm|] eqn:E5; [|discriminate].
+      intros H. apply assert_near_iff in H as (vs & ts & pairs & V & T & B & C & D).
+      exists ty, pk, arr, am, rm, vs, ts, pairs.
+      do 5 (split; [first [reflexivity|assumption]|]). split; [exact V|]. split; [exact T|]. split; [exact B|]. split; [exact C|exact D].
+    - intros (ty & pk & arr & am & rm & vs & ts & pairs & E1 & E2 & E3 & E4 & E5 & V & T & B & C & D).
+      rewrite E1, E2, E3, E4, E5. apply assert_near_iff. exists vs, ts, pairs. auto.
+  Qed.
+
+  Lemma check_variable_iff : forall x name period idx,
+    check_variable name x period idx = Ok true <-> Forall holds (tree_expectations name x period idx).
+  Proof.
+    induction x as [l|ls|kv IH] using ytree_ind'; intros name period idx.
+    - cbn [Api.check_variable tree_expectations]. rewrite check_target_iff. split.
+      + intros H. constructor; [exact H|constructor].
+      + intros H. now inversion H.
+    - cbn [Api.check_variable tree_expectations]. rewrite check_target_iff. split.
+      + intros H. constructor; [exact H|constructor].
+      + intros H. now inversion H.
+    - cbn [Api.check_variable tree_expectations].
+      induction kv as [|[pk x'] kv IHkv].
+      + split; [constructor|reflexivity].
+      + inversion IH as [|? ? I1 I2]; subst. cbn [snd] in I1. specialize (IHkv I2).
+        rewrite Forall_app. rewrite <- IHkv, <- (I1 name (Some pk) idx). clear.
+        destruct (check_variable name x' (Some pk) idx) as [[|]|e].
+        * tauto.
+        * split; [discriminate|intros [H _]; discriminate].
+        * split; [discriminate|intros [H _]; discriminate].
+  Qed.
+
+  Lemma Forall_flat_map' : forall {A B} (P : B -> Prop) (f : A -> list B) l,
+    Forall P (flat_map f l) <-> Forall (fun a => Forall P (f a)) l.
+  Proof.
+    intros A B P f. induction l as [|a l IH]; cbn.
+    - split; constructor.
+    - rewrite Forall_app, IH. split.
+      + intros [H1 H2]. now constructor.
+      + intros H. inversion H; subst. auto.
+  Qed.
+
+  Lemma all_pass_collect : forall {A} (g : A -> res bool) (f : A -> res (list expectation)) l,
+    (forall a, In a l -> (g a = Ok true <-> exists x, f a = Ok x /\ Forall holds x)) ->
+    (all_pass g l = Ok true <-> exists xs, collect f l = Ok xs /\ Forall holds xs).
+  Proof.
+    intros A g f. induction l as [|a l IH]; intros H; cbn [all_pass collect].
+    - split; [intros _; exists []; split; [reflexivity|constructor]|reflexivity].
+    - assert (Ha := H a (or_introl eq_refl)).
+      assert (IH' := IH (fun b Hb => H b (or_intror Hb))). clear IH H. split.
+      + intros E. destruct (g a) as [[|]|e] eqn:Ga; try discriminate.
+        destruct (proj1 Ha eq_refl) as [x [Fx Hx]]. destruct (proj1 IH' E) as [xs [Fxs Hxs]].
+        rewrite Fx, Fxs. exists (x ++ xs)%list. split; [reflexivity|]. apply Forall_app. auto.
+      + intros [xs [E Hxs]]. destruct (f a) as [x|] eqn:Fa; [|discriminate].
+        destruct (collect f l) as [y|] eqn:Fl; [|discriminate]. injection E as <-.
+        apply Forall_app in Hxs as [H1 H2].
+        rewrite (proj2 Ha (ex_intro _ x (conj eq_refl H1))). apply IH'. eauto.
+  Qed.
+
+  Lemma Forall_ext_iff : forall {A} (P Q : A -> Prop) l,
+    (forall a, P a <-> Q a) -> (Forall P l <-> Forall Q l).
+  Proof.
+    intros A P Q l H. rewrite !Forall_forall. split; intros H0 a Ha; apply H; auto.
+  Qed.
+
+  Lemma check_variables_iff : forall kv idx,
+    check_variables var_type value_of tst kv idx = Ok true
+    <-> Forall holds (variables_expectations tst kv idx).
+  Proof.
+    intros kv idx. unfold check_variables, variables_expectations.
+    rewrite all_pass_iff, Forall_flat_map'. apply Forall_ext_iff. intros e. apply check_variable_iff.
+  Qed.
+
+  Lemma check_instance_iff : forall ids e,
+    check_instance var_type value_of tst ids e = Ok true
+    <-> exists x, instance_expectations tst ids e = Ok x /\ Forall holds x.
+  Proof.
+    intros ids [id x]. unfold check_instance, instance_expectations. cbn [fst snd].
+    destruct x as [l|ls|kv].
+    - split; [discriminate|intros [x [H _]]; discriminate].
+    - split; [discriminate|intros [x [H _]]; discriminate].
+    - destruct kv as [|ve kv].
+      + cbn. split; [intros _; exists []; split; [reflexivity|constructor]|reflexivity].
+      + destruct (index_of id ids) as [i|].
+        * fold (check_variables var_type value_of tst (ve :: kv) (Some i)). rewrite check_variables_iff.
+          split; [intros H; eauto|intros [x [[= <-] H]]; exact H].
+        * cbn. split; [discriminate|intros [x [H _]]; discriminate].
+  Qed.
+
+  Lemma check_key_iff : forall e,
+    check_key var_type is_singular ids_of value_of tst e = Ok true
+    <-> exists x, key_expectations var_type is_singular ids_of tst e = Ok x /\ Forall holds x.
+  Proof.
+    intros [k x]. unfold check_key, key_expectations.
+    destruct (var_type k) as [ty|].
+    - rewrite check_variable_iff. split; [intros H; eauto|intros [y [[= <-] H]]; exact H].
+    - destruct (is_singular k).
+      + destruct x as [l|ls|kv]; try (split; [discriminate|intros [y [H _]]; discriminate]).
+        rewrite check_variables_iff. split; [intros H; eauto|intros [y [[= <-] H]]; exact H].
+      + destruct (ids_of k) as [ids|]; [|split; [discriminate|intros [y [H _]]; discriminate]].
+        destruct x as [l|ls|insts]; try (split; [discriminate|intros [y [H _]]; discriminate]).
+        apply all_pass_collect. intros a _. apply check_instance_iff.
+  Qed.
+
+  (** ** verdict_iff_within_margin *)
+  Theorem verdict_iff : 
+    yaml_verdict var_type is_singular ids_of value_of tst = true
+    <-> exists xs, expectations var_type is_singular ids_of tst = Ok xs /\ Forall holds xs.
+  Proof.
+    unfold yaml_verdict, expectations.
+    assert (H : check_output var_type is_singular ids_of value_of tst = Ok true
+                <-> exists xs, collect (key_expectations var_type is_singular ids_of tst) (t_output tst) = Ok xs
+                               /\ Forall holds xs).
+    { apply all_pass_collect. intros a _. apply check_key_iff. }
+    rewrite <- H. destruct (check_output var_type is_singular ids_of value_of tst) as [[|]|e];
+      split; try reflexivity; discriminate.
+  Qed.
+End YamlProofs.
+
+Open Scope nat_scope.
+
+
+(** * The three layouts *)
+
+Lemma bcast_same_length : forall {A B} (a : list A) (b : list B),
+  length a = length b -> bcast a b = Ok (zip_eq a b).
+Proof. intros A B a b H. unfold bcast. now rewrite H, Nat.eqb_refl. Qed.
+
+Lemma Forall2_length' : forall {A B} (R : A -> B -> Prop) l l', Forall2 R l l' -> length l = length l'.
+Proof. intros A B R l l' H. induction H; cbn; congruence. Qed.
+
+Section Cells.
+  Variable ty : jtype.
+  Variable am rm : option Q.
+
+  (** one engine value and one expected value are comparable and close *)
+  Definition cell_ok (a : raw) (l : leaf) : Prop :=
+    exists cv ct, raw_cmp ty a = Some cv /\ leaf_cmp ty l = Some ct /\ close am rm (cv, ct).
+
+  Lemma whole_iff : forall arr ls, length arr = length ls ->
+    ((exists vs ts pairs, Forall2 (fun r c => raw_cmp ty r = Some c) arr vs
+                          /\ Forall2 (fun l c => leaf_cmp ty l = Some c) ls ts
+                          /\ bcast vs ts = Ok pairs /\ Forall (close am rm) pairs)
+     <-> Forall2 cell_ok arr ls).
+  Proof.
+    intros arr ls Hlen. split.
+    - intros (vs & ts & pairs & V & T & B & C).
+      assert (L : length vs = length ts).
+      { rewrite <- (Forall2_length' _ _ _ V), <- (Forall2_length' _ _ _ T). exact Hlen. }
+      rewrite (bcast_same_length vs ts L) in B. injection B as <-.
+      clear L. revert ls ts T C Hlen. induction V as [|a cv arr vs Ha V IH]; intros ls ts T C Hlen.
+      + destruct ls; [constructor|discriminate].
+      + inversion T as [|l ct ls' ts' Hl T']; subst; [discriminate|]. cbn in C, Hlen.
+        inversion C as [|? ? C1 C2]; subst. constructor; [exists cv, ct; auto|].
+        apply (IH ls' ts'); auto.
+    - intros H. clear Hlen. induction H as [|a l arr ls (cv & ct & Ha & Hl & Hc) H IH].
+      + exists [], [], []. repeat split; constructor.
+      + destruct IH as (vs & ts & pairs & V & T & B & C).
+        assert (L : length vs = length ts).
+        { rewrite <- (Forall2_length' _ _ _ V), <- (Forall2_length' _ _ _ T). exact (Forall2_length' _ _ _ H). }
+        rewrite (bcast_same_length vs ts L) in B. injection B as <-.
+        exists (cv :: vs), (ct :: ts), ((cv, ct) :: zip_eq vs ts). split; [now constructor|]. split; [now constructor|].
+        split; [|now constructor]. rewrite bcast_same_length; [reflexivity|cbn; now rewrite L].
+  Qed.
+
+  Lemma one_iff : forall a l,
+    ((exists vs ts pairs, Forall2 (fun r c => raw_cmp ty r = Some c) [a] vs
+                          /\ Forall2 (fun l c => leaf_cmp ty l = Some c) [l] ts
+                          /\ bcast vs ts = Ok pairs /\ Forall (close am rm) pairs)
+     <-> cell_ok a l).
+  Proof.
+    intros a l. rewrite (whole_iff [a] [l] eq_refl). split.
+    - intros H. now inversion H.
+    - intros H. constructor; [exact H|constructor].
+  Qed.
+End Cells.
+
+Lemma select_nth : forall {A} (d : A) i (arr : list A), i < length arr ->
+  firstn 1 (skipn i arr) = [nth i arr d].
+Proof.
+  intros A d. induction i as [|i IH]; intros [|a arr] H; cbn in *; try lia.
+  - reflexivity.
+  - apply IH. lia.
+Qed.
+
+Lemma Forall2_nth_iff : forall {A B} (R : A -> B -> Prop) (da : A) (db : B) l l',
+  length l = length l' ->
+  (Forall2 R l l' <-> forall i, i < length l -> R (nth i l da) (nth i l' db)).
+Proof.
+  intros A B R da db. induction l as [|a l IH]; intros [|b l'] H; cbn in H; try discriminate.
+  - split; [intros _ i Hi; cbn in Hi; lia|constructor].
+  - injection H as H. split.
+    + intros F i Hi. inversion F; subst. destruct i as [|i]; cbn; [assumption|].
+      apply (proj1 (IH l' H)); [assumption|cbn in Hi; lia].
+    + intros F. constructor.
+      * apply (F 0). cbn. lia.
+      * apply (IH l' H). intros i Hi. apply (F (S i)). cbn. lia.
+Qed.
+
+Lemma index_of_nth : forall ids i id, NoDup ids -> nth_error ids i = Some id -> index_of id ids = Some i.
+Proof.
+  induction ids as [|x ids IH]; intros i id Hnd Hn; [destruct i; discriminate|].
+  inversion Hnd as [|? ? Hx Hnd']; subst. destruct i as [|i]; cbn in Hn.
+  - injection Hn as ->. cbn. now rewrite String.eqb_refl.
+  - cbn. destruct (String.eqb id x) eqn:E.
+    + apply String.eqb_eq in E. subst x. exfalso. apply Hx. eapply nth_error_In; eauto.
+    + now rewrite (IH i id Hnd' Hn).
+Qed.
+
+Lemma combine_seq_nth : forall {A} (l : list A) k x j,
+  In (x, j) (combine l (seq k (length l))) -> k <= j /\ nth_error l (j - k) = Some x.
+Proof.
+  intros A. induction l as [|a l IH]; intros k x j H; cbn in H; [contradiction|].
+  destruct H as [[= <- <-]|H].
+  - split; [lia|]. now rewrite Nat.sub_diag.
+  - destruct (IH (S k) x j H) as [H1 H2]. split; [lia|].
+    replace (j - k) with (S (j - S k)) by lia. exact H2.
+Qed.
+
+Lemma collect_all_ok : forall {A B} (f : A -> res (list B)) (g : A -> list B) l,
+  (forall a, In a l -> f a = Ok (g a)) -> collect f l = Ok (flat_map g l).
+Proof.
+  intros A B f g. induction l as [|a l IH]; intros H; cbn; [reflexivity|].
+  rewrite (H a (or_introl eq_refl)), IH; [reflexivity|]. intros b Hb. apply H. now right.
+Qed.
+
+Lemma collect_map : forall {A B C} (f : B -> res (list C)) (h : A -> B) l,
+  collect f (map h l) = collect (fun a => f (h a)) l.
+Proof.
+  intros A B C f h. induction l as [|a l IH]; cbn; [reflexivity|]. now rewrite IH.
+Qed.
+
+Section Layouts.
+  Variable var_type : string -> option jtype.
+  Variable is_singular : string -> bool.
+  Variable ids_of : string -> option (list string).
+  Variable value_of : string -> string -> res (list raw).
+  Variable period : option string.
+  Variable abs_m rel_m : margin.
+  Variable key plural : string.
+  Variable ids : list string.
+  Variable cells : list cell.
+
+  Definition test_with (o : list (string * ytree)) : ytest := mk_ytest period o abs_m rel_m.
+
+  Hypothesis Hvars : Forall (fun c : cell => exists ty, var_type (fst (fst c)) = Some ty) cells.
+  Hypothesis Hkey : var_type key = None /\ is_singular key = true.
+  Hypothesis Hplural : var_type plural = None /\ is_singular plural = false /\ ids_of plural = Some ids.
+  Hypothesis Hnodup : NoDup ids.
+  Hypothesis Hnonempty : ids <> [].
+  Hypothesis Hlen : Forall (fun c : cell => length (snd c) = length ids) cells.
+  Hypothesis Harr : forall c arr, In c cells -> value_of (fst (fst c)) (snd (fst c)) = Ok arr -> length arr = length ids.
+
+  Definition whole (c : cell) : expectation := let '(v, pk, ls) := c in mk_exp v (Some pk) None ls.
+  Definition inst (i : nat) (c : cell) : expectation :=
+    let '(v, pk, ls) := c in mk_exp v (Some pk) (Some i) [nth i ls Null].
+
+  Lemma tree_whole : forall v pk ls p0,
+    tree_expectations v (YD [(pk, YS ls)]) p0 None = [mk_exp v (Some pk) None ls].
+  Proof. reflexivity. Qed.
+
+  Lemma variables_whole : forall tst cs,
+    variables_expectations tst (by_variable cs) None = map whole cs.
+  Proof.
+    intros tst. induction cs as [|[[v pk] ls] cs IH]; [reflexivity|].
+    unfold variables_expectations in *. cbn [by_variable map flat_map fst snd]. rewrite tree_whole.
+    cbn [app whole]. f_equal. exact IH.
+  Qed.
+
+  Lemma collect_by_variable : forall tst cs,
+    Forall (fun c : cell => exists ty, var_type (fst (fst c)) = Some ty) cs ->
+    collect (key_expectations var_type is_singular ids_of tst) (by_variable cs) = Ok (map whole cs).
+  Proof.
+    intros tst. induction cs as [|[[v pk] ls] cs IH]; intros Hv; [reflexivity|].
+    inversion Hv as [|? ? [ty Hty] Hv']; subst. cbn [fst] in Hty.
+    cbn [by_variable map collect key_expectations]. rewrite Hty, tree_whole.
+    fold (by_variable cs). rewrite (IH Hv'). reflexivity.
+  Qed.
+
+  Lemma exp_by_variable :
+    expectations var_type is_singular ids_of (test_with (by_variable cells)) = Ok (map whole cells).
+  Proof. unfold expectations. cbn [t_output test_with]. now apply collect_by_variable. Qed.
+
+  Lemma exp_by_entity :
+    expectations var_type is_singular ids_of (test_with (by_entity key cells)) = Ok (map whole cells).
+  Proof.
+    unfold expectations. cbn [t_output test_with by_entity collect key_expectations].
+    destruct Hkey as [K1 K2]. rewrite K1, K2, variables_whole. now rewrite app_nil_r.
+  Qed.
+
+  Lemma variables_inst : forall tst i cs,
+    variables_expectations tst
+      (map (fun c : cell => let '(v, pk, ls) := c in (v, YD [(pk, YL (nth i ls Null))])) cs) (Some i)
+    = map (inst i) cs.
+  Proof.
+    intros tst i. induction cs as [|[[v pk] ls] cs IH]; [reflexivity|].
+    unfold variables_expectations in *. cbn [map flat_map fst snd tree_expectations app inst]. f_equal. exact IH.
+  Qed.
+
+  Lemma instance_exp : forall tst id i, nth_error ids i = Some id ->
+    instance_expectations tst ids (id, instance_tree i cells) = Ok (map (inst i) cells).
+  Proof.
+    intros tst id i Hn. unfold instance_expectations, instance_tree. cbn [fst snd].
+    destruct cells as [|c cs] eqn:E; [reflexivity|]. rewrite <- E.
+    rewrite (index_of_nth ids i id Hnodup Hn), variables_inst.
+    rewrite E. cbn [map]. reflexivity.
+  Qed.
+
+  Lemma exp_by_instance :
+    expectations var_type is_singular ids_of (test_with (by_instance plural ids cells))
+    = Ok (flat_map (fun i => map (inst i) cells) (seq 0 (length ids))).
+  Proof.
+    unfold expectations. cbn [t_output test_with by_instance collect key_expectations].
+    destruct Hplural as (P1 & P2 & P3). rewrite P1, P2, P3, collect_map.
+    rewrite (collect_all_ok _ (fun ii : string * nat => map (inst (snd ii)) cells)).
+    - rewrite app_nil_r. f_equal.
+      clear. generalize 0 as k. induction ids as [|x l IH]; intros k; [reflexivity|].
+      cbn. f_equal. apply IH.
+    - intros [id i] Hin.
+      apply combine_seq_nth in Hin as [_ Hn]. rewrite Nat.sub_0_r in Hn. cbn [fst snd].
+      now apply instance_exp.
+  Qed.
+
+  Local Notation holdsT := (holds var_type value_of (test_with [])).
+
+  Lemma ids_positive : 0 < length ids.
+  Proof. destruct ids; [contradiction|cbn; lia]. Qed.
+
+  Lemma holds_cell : forall c, In c cells ->
+    (holdsT (whole c) <-> forall i, i < length ids -> holdsT (inst i c)).
+  Proof.
+    intros [[v pk] ls] Hc.
+    assert (Hls : length ls = length ids) by (rewrite Forall_forall in Hlen; exact (Hlen _ Hc)).
+    assert (Ha : forall arr, value_of v pk = Ok arr -> length arr = length ids) by (intros arr; exact (Harr _ arr Hc)).
+    unfold holds, whole, inst. cbn [x_var x_period x_idx x_target t_abs t_rel test_with select]. split.
+    - intros (ty & pk' & arr & am & rm & vs & ts & pairs & E1 & E2 & E3 & E4 & E5 & V & T & B & C & D) i Hi.
+      injection E2 as <-. pose proof (Ha arr E3) as La.
+      assert (W : Forall2 (cell_ok ty (effective_abs am rm) rm) arr ls).
+      { apply whole_iff; [congruence|]. exists vs, ts, pairs. auto. }
+      assert (Lal : length arr = length ls) by congruence.
+      pose proof (proj1 (Forall2_nth_iff _ (RZ 0) Null arr ls Lal) W) as W'.
+      assert (O := W' i ltac:(lia)). apply one_iff in O as (vs' & ts' & pairs' & V' & T' & B' & C').
+      exists ty, pk, arr, am, rm, vs', ts', pairs'.
+      do 5 (split; [first [reflexivity|assumption]|]).
+      rewrite (select_nth (RZ 0) i arr ltac:(lia)). auto.
+    - intros H.
+      destruct (H 0 ids_positive) as (ty & pk' & arr & am & rm & _ & _ & _ & E1 & E2 & E3 & E4 & E5 & _ & _ & _ & _ & D).
+      injection E2 as <-. pose proof (Ha arr E3) as La.
+      assert (W : Forall2 (cell_ok ty (effective_abs am rm) rm) arr ls).
+      { assert (Lal : length arr = length ls) by congruence.
+        apply (proj2 (Forall2_nth_iff _ (RZ 0) Null arr ls Lal)). intros i Hi.
+        destruct (H i ltac:(lia)) as (ty' & pk' & arr' & am' & rm' & vs & ts & pairs & F1 & F2 & F3 & F4 & F5 & V & T & B & C & _).
+        injection F2 as <-. rewrite E1 in F1. injection F1 as <-. rewrite E3 in F3. injection F3 as <-.
+        rewrite E4 in F4. injection F4 as <-. rewrite E5 in F5. injection F5 as <-.
+        rewrite (select_nth (RZ 0) i arr ltac:(lia)) in V.
+        apply one_iff. exists vs, ts, pairs. auto. }
+      apply whole_iff in W as (vs & ts & pairs & V & T & B & C); [|congruence].
+      exists ty, pk, arr, am, rm, vs, ts, pairs.
+      do 5 (split; [first [reflexivity|assumption]|]). auto.
+  Qed.
+
+  Lemma holds_layouts :
+    Forall holdsT (map whole cells)
+    <-> Forall holdsT (flat_map (fun i => map (inst i) cells) (seq 0 (length ids))).
+  Proof.
+    rewrite Forall_flat_map', !Forall_forall. split.
+    - intros H i Hi. apply in_seq in Hi. apply Forall_forall. intros x Hx.
+      apply in_map_iff in Hx as [c [<- Hc]]. apply (proj1 (holds_cell c Hc)); [|lia].
+      apply H. now apply in_map.
+    - intros H x Hx. apply in_map_iff in Hx as [c [<- Hc]]. apply (proj2 (holds_cell c Hc)).
+      intros i Hi. assert (Hs : In i (seq 0 (length ids))) by (apply in_seq; lia).
+      specialize (H i Hs). rewrite Forall_forall in H. apply H. now apply in_map.
+  Qed.
+
+  Lemma verdict_of : forall o xs,
+    expectations var_type is_singular ids_of (test_with o) = Ok xs ->
+    (yaml_verdict var_type is_singular ids_of value_of (test_with o) = true <-> Forall holdsT xs).
+  Proof.
+    intros o xs E. rewrite verdict_iff, E. split.
+    - intros [ys [[= <-] H]]. exact H.
+    - intros H. exists xs. split; [reflexivity|exact H].
+  Qed.
+
+  (** ** layouts_equivalent *)
+  Theorem layouts_equiv :
+    yaml_verdict var_type is_singular ids_of value_of (test_with (by_entity key cells))
+    = yaml_verdict var_type is_singular ids_of value_of (test_with (by_variable cells))
+    /\ yaml_verdict var_type is_singular ids_of value_of (test_with (by_instance plural ids cells))
+       = yaml_verdict var_type is_singular ids_of value_of (test_with (by_variable cells)).
+  Proof.
+    split; apply Bool.eq_iff_eq_true.
+    - rewrite (verdict_of _ _ exp_by_entity), (verdict_of _ _ exp_by_variable). reflexivity.
+    - rewrite (verdict_of _ _ exp_by_instance), (verdict_of _ _ exp_by_variable). symmetry. apply holds_layouts.
+  Qed.
+End Layouts.
